@@ -14,7 +14,7 @@ import math
 from vf import core
 
 ID = 'C17'
-N = {'quick': 90000, 'thorough': 1000000}
+N = {'quick': 45000, 'thorough': 1000000}
 NT_RULE = ('history = initial (breakpoints, slopes) + <=6 insert/pop/reload operations + probe '
            'coverages, drawn per case index from a seeded PRNG after a list of directed histories; '
            'non-trivial = >=1 insert and >=1 evaluation beyond the first piece; distinct = distinct '
